@@ -583,7 +583,7 @@ def root_cause_sig(m):
 
         def _elements(x):
             return _elements(x[1]) + _elements(x[2]) if node_class(x) == "and" else [x]
-        if parent != "and":
+        if parent not in ("and", "prob"):
             # (a conjunction is transparent: its elements count as children, before the conjunction itself)
             kids = [e for c in kids if node_class(c) == "and" for e in _elements(c)] + kids
         for cls in ("or", "not", "infix-hi", "prob", "clause", "and", "prefix", "neg-number", "list", "infix"):
@@ -593,7 +593,8 @@ def root_cause_sig(m):
                 break
     if offending is None:
         return "rt:other:%s/?" % parent
-    if offending_slot is not None and node_class(offending) == "and":
+    if offending_slot is not None and node_class(offending) == "and" and parent not in ("and", "prob"):
+        # (under a conjunction or a probability the conjunction itself is the listed offender, F-C17-RT-AND)
         # a conjunction is transparent: if replacing one element INSIDE it also repairs the round trip, that element
         # is the offender (f((a, not a)) fails because of the negation, f((a,(b;c),d)) because of the disjunction)
         def _inner(path_ast, rebuild):
@@ -602,7 +603,7 @@ def root_cause_sig(m):
                     continue
                 try:
                     if roundtrip(build(rebuild(_replace(path_ast, slot2, ["atom", "z"])))) is None:
-                        if node_class(ch) == "and":
+                        if node_class(ch) in ("and", "or"):
                             deeper = _inner(ch, lambda x, s2=slot2, pa=path_ast, rb=rebuild: rb(_replace(pa, s2, x)))
                             if deeper is not None:
                                 return deeper
@@ -642,8 +643,8 @@ def root_cause_sig(m):
     if m[0] == "bin" and offending[0] == "bin" and BIN[m[1]][0] == BIN[offending[1]][0]:
         cc = "infix-same-priority"
     cause = root_cause(parent, cc)
-    if cause == "other" and m[0] == "bin" and cc == "infix" and (offending_slot is None or offending_slot[0] == 3) \
-            and _leftmost_sign(offending):
+    if cause in ("other", "mixed-associativity") and m[0] == "bin" and cc in ("infix", "infix-same-priority") \
+            and (offending_slot is None or offending_slot[0] == 3) and _leftmost_sign(offending):
         # the right operand is printed without parentheses and its LEFTMOST leaf carries the sign that merges with
         # the operator: a < ((-1) + a) prints 'a<-1+a'
         cause = "sign-after-operator"
